@@ -138,6 +138,10 @@ def file_lists(R) -> List[Dict[str, Any]]:
     out.append(("symlink_to_other_dir", [{"dir": 0, "name": "a.root", "link_to": {"dir": 1, "name": "target.root"}}], False, "ok"))
     out.append(("plain_and_symlink", [{"dir": 0, "name": "a.root"}, {"dir": 0, "name": "l.root", "link_to": {"dir": 1, "name": "target.root"}}], False, "ok"))
     out.append(("symlink_same_dir", [{"dir": 0, "name": "l.root", "link_to": {"dir": 0, "name": "target.root"}}, {"dir": 0, "name": "b.root"}], False, "ok"))
+    # shell-wildcard characters that are part of the NAME (a file really called run[1].root next to run1.root)
+    out.append(("glob_chars_in_name", [{"dir": 0, "name": "run[1].root"}, {"dir": 0, "name": "run1.root"}], False, "ok"))
+    out.append(("glob_chars_alone", [{"dir": 0, "name": "part[0-9]*.root"}], False, "ok"))
+    out.append(("glob_question_mark", [{"dir": 0, "name": "a?.root"}, {"dir": 0, "name": "ab.root"}, {"dir": 0, "name": "e.root"}], False, "ok"))
     out.append(("blank_in_name", [{"dir": 0, "name": "c d.root"}], False, "ok"))
     out.append(("different_dirs", [{"dir": 0, "name": "a.root"}, {"dir": 1, "name": "b.root"}], False, "different_dirs"))
     out.append(("different_dirs_late", [{"dir": 0, "name": "a.root"}, {"dir": 0, "name": "b.root"}, {"dir": 2, "name": "e.root"}], False, "different_dirs"))
